@@ -65,8 +65,8 @@ def keysDistinct : List (Str × V) → Bool
 
 def inContract (w : World) : Op → Bool
   | .cifNew => true
-  | .cifDel c | .mkBlock c _ | .getBlock c _ | .blocks c => okC w c
-  | .mkFrame h _ | .getFrame h _ | .frames h | .cdestroy h | .code h | .isBlock h | .mkLoop h _ _ | .catLoop h _
+  | .cifDel c | .mkBlock c _ _ | .getBlock c _ | .blocks c => okC w c
+  | .mkFrame h _ _ | .getFrame h _ | .frames h | .cdestroy h | .code h | .isBlock h | .mkLoop h _ _ | .catLoop h _
   | .itemLoop h _ | .loops h | .prune h | .getVal h _ | .setVal h _ _ | .rmItem h _ => okH w h
   | .ldestroy l | .getCat l | .setCat l _ | .names l | .addItem l _ _ => okL w l
   | .itOpen l => okLOpen w l
